@@ -971,7 +971,7 @@ impl Error {
             }
         }
 
-        RenderDisplay { err: self, options }.to_string()
+        sanitize_rendered(RenderDisplay { err: self, options }.to_string())
     }
 
     /// Construct a `Message` error with no known location.
@@ -1693,7 +1693,19 @@ fn search_locations_with_ancestor_fallback(
 
 impl fmt::Display for Error {
     fn fmt(&self, f: &mut fmt::Formatter<'_>) -> fmt::Result {
-        fmt_error_rendered(f, self, RenderOptions::default())
+        f.write_str(&self.render())
+    }
+}
+
+/// Last line of defence for everything that is rendered for a terminal or a log: message text
+/// may reflect input (unknown field / variant names, duplicate keys, messages of user types,
+/// validation paths), so the finished report goes through the same filter as the snippet source.
+/// `\n` and `\t` are kept.
+pub(crate) fn sanitize_rendered(s: String) -> String {
+    if crate::de_snipped::is_terminal_snippet_clean(&s) {
+        s
+    } else {
+        crate::de_snipped::sanitize_terminal_snippet_preserve_len(s)
     }
 }
 
